@@ -1,0 +1,15 @@
+//go:build verif
+
+// Contracts for the deductive checker in /verif (comment-only).
+
+package badmetrics
+
+// ---------------------------------------------------------------- badMetrics.go (C02)
+// A rejected line is reported as one Record{name, rejected text, reason, time} on the In channel.
+//@ spec recordElem(metric bytes, msg bytes, reason bytes, t elem) elem := eP(eS(metric), eP(eS(msg), eP(eS(reason), eP(t, eNil))))
+//@
+//@ func (b *BadMetrics) Add(metric []byte, msg []byte, err error)
+//@   property C02
+//@   requires b.In != nil && err != nil
+//@   modifies sent(b.In)
+//@   ensures[reported] exists t elem :: sent(b.In) == old(sent(b.In)) ++ recordElem(metric[..], msg[..], errMsg(err.ref), t)
